@@ -579,4 +579,6 @@ def main():
 
 
 if __name__ == "__main__":
+    # the check modules `import check`: make that the running module, so `Broken` raised through them is the class caught in main()
+    sys.modules.setdefault("check", sys.modules[__name__])
     sys.exit(main())
